@@ -3,12 +3,13 @@ import json, os, random
 import vlib, relational as R
 
 
-def gen_cfg(max_ops=3, with_txn=False, with_reopen=True):
-    cfg = vlib.scratch() + "/GenRel_%d_%s_%s.cfg" % (max_ops, with_txn, with_reopen)
+def gen_cfg(max_ops=3, with_txn=False, with_reopen=True, configs=()):
+    cfg = vlib.scratch() + "/GenRel_%d_%s_%s_%d.cfg" % (max_ops, with_txn, with_reopen, len(configs))
     base = open(os.path.join(vlib.SPEC, "Gen_Relational.cfg")).read()
     base = base.replace("MaxOps = 3", "MaxOps = %d" % max_ops)
     base = base.replace("WithTxn = FALSE", "WithTxn = %s" % ("TRUE" if with_txn else "FALSE"))
     base = base.replace("WithReopen = TRUE", "WithReopen = %s" % ("TRUE" if with_reopen else "FALSE"))
+    base = base.replace("Configs = {}", "Configs = {%s}" % ", ".join('"%s"' % c for c in configs))
     open(cfg, "w").write(base)
     return cfg
 
@@ -21,9 +22,9 @@ def class_key(c):
     return (op["k"], l["ok"], tuple(R.features(h)), op.get("c"), p.get("k"), p.get("c"), len(op.get("rows", [])))
 
 
-def generate(chk, max_ops, with_txn, with_reopen, sample, simulate=None, focus=None):
+def generate(chk, max_ops, with_txn, with_reopen, sample, simulate=None, focus=None, configs=()):
     """-> (cases, stats). focus: optional predicate on a behaviour to keep (before sampling)."""
-    cfg = gen_cfg(max_ops, with_txn, with_reopen)
+    cfg = gen_cfg(max_ops, with_txn, with_reopen, configs)
     gen = vlib.tlc_emit("MC_Relational.tla", cfg, timeout=2400)
     cases = gen["emitted"]
     total = len(cases)
@@ -35,7 +36,7 @@ def generate(chk, max_ops, with_txn, with_reopen, sample, simulate=None, focus=N
     walks = []
     if simulate:
         # long random walks: TLC -simulate prints the same per-transition lines; keep the longest history of each walk
-        scfg = gen_cfg(simulate["depth"], with_txn, with_reopen)
+        scfg = gen_cfg(simulate["depth"], with_txn, with_reopen, configs)
         sim = vlib.run_tlc("MC_Relational.tla", scfg, workers=1, timeout=600,
                            simulate="num=%d" % simulate["num"], seed=chk.seed, extra=["-depth", str(simulate["depth"])])
         em = vlib.parse_emitted(sim["out"])
